@@ -4,7 +4,7 @@
 // the exactly integrable system qdot=u, udot=0, u=1 (q == t), for every integrator and
 // every option mask; the contract clauses are evaluated after every return; every history
 // is then driven to EndOfSimulation with (inf,inf).
-//   section plain  : all sequences of length <= 2 over the full alphabet, no merging.
+//   section plain  : all sequences of length <= 2, no merging (quick: stepTo only).
 //   section bfs    : AbstractIntegratorRep family, BFS over canonical hidden states
 //                    (read through -fno-access-control), merging equal states.
 //   section cpodes : CPodesIntegrator (its CPODES memory cannot be canonicalised), plain
@@ -17,6 +17,9 @@
 #include "odesys.h"
 #include "verif.h"
 
+#include <fcntl.h>
+#include <setjmp.h>
+#include <signal.h>
 #include <memory>
 
 using namespace SimTK;
@@ -58,7 +61,7 @@ struct Cfg {
         if (mask & OptFixed) s += "fixedStep=" + verif::fmtd(L().hfix) + " ";
         if (mask & OptLimit1) s += "internalStepLimit=1 ";
         if (mask & OptFinal) s += "finalTime=" + verif::fmtd(L().F) + " ";
-        if (wit) s += "witness(q-" + verif::fmtd(crossing()) + ") ";
+        if (wit) s += "witness(t-" + verif::fmtd(crossing()) + ") ";
         return s;
     }
     std::string keyPrefix() const { return std::string(INTEG_NAMES[integ]) + ((mask & OptNoInterp) ? "/no-interp/" : "/"); }
@@ -86,8 +89,9 @@ static Cfg parseCfg(const std::string& s) {
 // ---------------------------------------------------------------- the system under integration
 class Witness : public TriggeredEventHandler {
 public:
-    Witness(const odesys::OdeSystem& sys, Real c) : TriggeredEventHandler(Stage::Position), sys(sys), c(c) {}
-    Real getValue(const State& s) const override { return sys.q(s, 0) - c; }
+    // a witness on *time* (t - c): its sign is exact, so the crossing is not blurred by interpolation roundoff in q
+    Witness(const odesys::OdeSystem& sys, Real c) : TriggeredEventHandler(Stage::Time), sys(sys), c(c) {}
+    Real getValue(const State& s) const override { return s.getTime() - c; }
     void handleEvent(State&, Real, bool&) const override {}
 private:
     const odesys::OdeSystem& sys; Real c;
@@ -95,7 +99,7 @@ private:
 struct Fixture {
     std::unique_ptr<odesys::OdeSystem> sys; State init;
     Fixture(double crossing) {
-        sys.reset(new odesys::OdeSystem(1, 0, [](Real, const Vector&, const Vector&, const Vector&, Vector& udot, Vector&) { udot[0] = 0; }));
+        sys.reset(new odesys::OdeSystem(1, 0, [](Real, const Vector&, const Vector&, const Vector&, const Vector&, Vector& udot, Vector&) { udot[0] = 0; }));
         if (crossing < Infinity) sys->addEventHandler(new Witness(*sys, crossing));
         init = sys->makeState(0, Vector(1, Real(0)), Vector(1, Real(1)), Vector());
     }
@@ -161,79 +165,120 @@ static uint64_t canonKey(const Integrator& I, bool cpodes) {
     return h;
 }
 
+// ---------------------------------------------------------------- cheap counters (flushed once per item)
+static std::map<const char*, int64_t> g_ok;          // keyed by the literal's address; merged by name at flush
+static int64_t g_status[16];
+static void flushCounters(verif::Run& run) {
+    for (auto& kv : g_ok) run.count(std::string("oracle:") + kv.first + ":ok", kv.second);
+    g_ok.clear();
+    for (int i = 0; i < 16; ++i) if (g_status[i]) { run.count(std::string("status:") + Integrator::getSuccessfulStepStatusString((Status)i).c_str(), g_status[i]); g_status[i] = 0; }
+}
+
 // ---------------------------------------------------------------- one history on a fresh object
+// A history is first executed without building the textual trace; if any clause fails it is executed
+// again with tracing on and only that second execution reports (so violations carry the full call log).
 struct Exec {
     verif::Run& run; const Cfg cfg; Fixture& fx; std::unique_ptr<Integrator> I;
+    const bool tracing;           // build the call log and report failures
+    bool sawFailure = false;      // (untraced mode) some clause failed: caller must re-execute with tracing
     std::string trace;            // textual log of the calls so far (replay / violation text)
     std::vector<Op> hist;
     // reference model of the caller's knowledge
     double prevT = 0; bool ended = false; int calls = 0; bool eventSeen = false; bool dead = false;
+    double sPending = -Infinity;  // scheduled time of the previous request while it has not been reached yet
+    Status prevStatus = Integrator::InvalidSuccessfulStepStatus;
     uint64_t outcomeHash = 1469598103934665603ULL;
-    Exec(verif::Run& run, const Cfg& c) : run(run), cfg(c), fx(fixtureFor(c)) {
+    Exec(verif::Run& run, const Cfg& c, bool tracing) : run(run), cfg(c), fx(fixtureFor(c)), tracing(tracing) {
         I.reset(makeIntegrator(c, *fx.sys));
         I->initialize(fx.init);
     }
     double latticeValue(int i) const { return i == 0 ? I->getTime() : i == 7 ? (double)Infinity : cfg.L().v[i - 1]; }
-    bool unbounded() const { return !(cfg.mask & (OptReturnEvery | OptLimit1)); }
-    // an op is enabled when its times are not in the past (documented precondition), are not duplicates of "now",
-    // and the call is guaranteed to return (some finite limit, or an option that returns after every step).
+    // CPODES needs a finite target (its first step size is derived from it: step(tout=inf) fails with h=inf), and
+    // without returnEveryInternalStep / a step limit an unbounded request never returns by definition.
+    bool unbounded() const { return cfg.cpodes() || !(cfg.mask & (OptReturnEvery | OptLimit1)); }
+    // An op is enabled when
+    //  * its times are not in the past (documented precondition) and are not duplicates of "now";
+    //  * its scheduled time does not contradict what earlier requests allowed: the integrator may already have
+    //    advanced irreversibly up to the earlier scheduled time, so a new scheduled time must be >= the advanced
+    //    time, or >= the still pending scheduled time of the previous request;
+    //  * the call is guaranteed to return (some finite limit, or an option that returns after every step).
     bool enabled(const Op& o) const {
         if (ended || dead) return false;
         double now = I->getTime(), r = latticeValue(o.ri), s = latticeValue(o.si);
         if (o.ri != 0 && !(r > now)) return false;
         if (o.si != 0 && !(s > now)) return false;
+        if (!(s >= I->getAdvancedTime() || (sPending > -Infinity && s >= sPending))) return false;
         if (unbounded() && std::min(std::min(r, s), cfg.F()) == Infinity) return false;
         return true;
     }
+    // an event window that was localised before this request was made cannot take the request's times into account
+    bool windowPredatesRequest() const {
+        const IntegratorRep& rep = I->getRep();
+        if (cfg.cpodes()) return dynamic_cast<const CPodesIntegratorRep&>(rep).pendingReturnCode == CPodes::RootReturn;
+        return rep.stepCommunicationStatus == IntegratorRep::CompletedInternalStepWithEvent;
+    }
     std::string where() const { return cfg.str() + " [" + cfg.optStr() + "] history=" + histStr(hist) + "\n" + trace; }
     std::string replay() const { return "cfg=" + cfg.str() + "\nhistory=" + histStr(hist) + "\n" + trace; }
-    void fail(const std::string& clause, const std::string& msg) {
-        run.expect(false, cfg.keyPrefix() + clause, [&] { return clause + ": " + msg + "\n  at " + where(); }, [&] { return replay(); });
+    template <class M> void check(bool cond, const char* clause, const M& msg) {
+        if (cond) { if (!tracing || run.verbose) { run.acc.transitions++; g_ok[clause]++; } return; }
+        if (!tracing) { sawFailure = true; return; }
+        run.expect(false, cfg.keyPrefix() + clause, [&] { return std::string(clause) + ": " + msg() + "\n  at " + where(); }, [&] { return replay(); });
     }
-    void ok(const std::string& clause) { run.acc.transitions++; run.acc.counters["oracle:" + clause + ":ok"]++; }
-    void check(bool cond, const std::string& clause, const std::function<std::string()>& msg) { if (cond) ok(clause); else fail(clause, msg()); }
 
     // perform one request and judge it.  `judge` false = replaying an already-judged prefix.
     void call(int kind, double r, double s, bool judge, const char* tag) {
         const double F = cfg.F();
         const double now = I->getTime();
+        const bool oldWindow = cfg.wit ? windowPredatesRequest() : false;
         Status st = Integrator::InvalidSuccessfulStepStatus; bool threw = false; std::string what;
-        alarm(20);
         try {
             if (kind == 0) st = I->stepTo(r, s);
             else st = I->stepBy(r - now, s - now);
         } catch (const std::exception& e) { threw = true; what = e.what(); }
-        alarm(0);
         if (kind == 1) { r = now + (r - now); s = now + (s - now); }     // the times stepBy documents: now + interval
         calls++;
         char line[400];
         if (threw) {
-            snprintf(line, sizeof line, "  %s %s(%.17g, %.17g) at t=%.17g THROWS: %.200s\n", tag, kind ? "stepBy->" : "stepTo", r, s, now, what.c_str());
-            for (char* p = line; *p; ++p) if (*p == '\n' && p[1]) *p = ' ';
-            trace += line;
+            if (tracing) {
+                snprintf(line, sizeof line, "  %s %s(%.17g, %.17g) at t=%.17g THROWS: %.200s\n", tag, kind ? "stepBy->" : "stepTo", r, s, now, what.c_str());
+                for (char* p = line; *p; ++p) if (*p == '\n' && p[1]) *p = ' ';
+                trace += line;
+            }
             outcomeHash = verif::hashStr("throw", outcomeHash);
             if (!judge) return;
-            if (ended) { ok("refuses-after-end"); check(I->isSimulationOver(), "simulation-over-forgotten", [&] { return std::string("isSimulationOver() false after refusing a step"); }); }
-            else { fail("unexpected-exception", "stepTo threw although the simulation had not ended: " + what.substr(0, 300)); dead = true; }
+            if (ended) { check(true, "refuses-after-end", [] { return std::string(); }); check(I->isSimulationOver(), "simulation-over-forgotten", [&] { return std::string("isSimulationOver() false after refusing a step"); }); }
+            else {
+                // keyed by situation: after a localised event (CPODES' internal time is beyond the window) or otherwise
+                check(false, eventSeen ? "step-failed-after-event" : "unexpected-exception", [&] { return "stepTo threw although the simulation had not ended: " + what.substr(0, 300); });
+                dead = true;
+            }
             return;
         }
         const double t = I->getTime(), ta = I->getAdvancedTime();
         const double q = fx.sys->q(I->getState(), 0), u = fx.sys->u(I->getState(), 0);
-        snprintf(line, sizeof line, "  %s %s(%.17g, %.17g) at t=%.17g -> %s t=%.17g tAdv=%.17g q=%.17g%s\n", tag, kind ? "stepBy->" : "stepTo", r, s, now,
-                 Integrator::getSuccessfulStepStatusString(st).c_str(), t, ta, q, I->isStateInterpolated() ? " (interpolated)" : "");
-        trace += line;
+        if (tracing) {
+            snprintf(line, sizeof line, "  %s %s(%.17g, %.17g) at t=%.17g -> %s t=%.17g tAdv=%.17g q=%.17g%s\n", tag, kind ? "stepBy->" : "stepTo", r, s, now,
+                     Integrator::getSuccessfulStepStatusString(st).c_str(), t, ta, q, I->isStateInterpolated() ? " (interpolated)" : "");
+            trace += line;
+        }
         outcomeHash = verif::hashPod(t, verif::hashPod((int)st, outcomeHash)); outcomeHash = verif::hashPod(ta, outcomeHash);
-        if (!judge) { prevT = t; if (st == Integrator::EndOfSimulation) ended = true; if (st == Integrator::ReachedEventTrigger) eventSeen = true; return; }
-        run.count(std::string("status:") + Integrator::getSuccessfulStepStatusString(st).c_str());
+        sPending = (t < s) ? s : -Infinity;
+        if (!judge) { prevT = t; prevStatus = st; if (st == Integrator::EndOfSimulation) ended = true; if (st == Integrator::ReachedEventTrigger) eventSeen = true; return; }
+        if ((!tracing || run.verbose) && (int)st >= 0 && (int)st < 16) g_status[(int)st]++;
 
-        if (ended) { fail("step-accepted-after-end", "a step request after EndOfSimulation was accepted"); return; }
+        if (ended) { check(false, "step-accepted-after-end", [] { return std::string("a step request after EndOfSimulation was accepted"); }); return; }
         const double lim = std::min(std::min(r, s), F);
         check(t >= prevT, "time-decreased", [&] { return "returned time " + verif::fmtd(t) + " < previous " + verif::fmtd(prevT); });
         check(t <= lim, "returned-after-limit", [&] { return "returned time " + verif::fmtd(t) + " > min(report,scheduled,final) = " + verif::fmtd(lim); });
         check(ta >= t, "advanced-before-state", [&] { return "advanced time " + verif::fmtd(ta) + " < state time " + verif::fmtd(t); });
         check(ta <= s, "advanced-passes-scheduled", [&] { return "advanced time " + verif::fmtd(ta) + " > scheduled event time " + verif::fmtd(s); });
         check(ta <= F, "advanced-passes-final", [&] { return "advanced time " + verif::fmtd(ta) + " > final time " + verif::fmtd(F); });
-        run.residual("state-q-minus-t", std::max(std::abs(q - t), std::abs(u - 1)), 1e-9, [&] { return where(); }, [&] { return replay(); }, cfg.keyPrefix() + "returned-state-off-trajectory");
+        {
+            const double res = std::max(std::abs(q - t), std::abs(u - 1)), bound = 1e-9;
+            if (!(res <= bound) && !tracing) sawFailure = true;
+            else if ((res <= bound) != tracing || run.verbose)
+                run.residual("state-q-minus-t", res, bound, [&] { return where(); }, [&] { return replay(); }, std::string(INTEG_NAMES[cfg.integ]) + "/returned-state-off-trajectory");
+        }
         switch (st) {
             case Integrator::StartOfContinuousInterval:
                 check(calls == 1, "unexpected-start-of-interval", [&] { return std::string("StartOfContinuousInterval returned on call ") + std::to_string(calls); });
@@ -241,30 +286,38 @@ struct Exec {
                 break;
             case Integrator::ReachedReportTime:
                 check(t == r || (r >= F && t == F), "report-status-at-wrong-time", [&] { return "ReachedReportTime at t=" + verif::fmtd(t) + " but report=" + verif::fmtd(r) + " final=" + verif::fmtd(F); });
+                // "each step is reported at most once": the final-time stop may not be delivered a second time
+                // (a report requested at the current time is a different matter)
+                check(!(prevStatus == Integrator::ReachedReportTime && t == prevT && r > t), "report-repeated", [&] { return "the stop at t=" + verif::fmtd(t) + " was reported twice although no report was requested there"; });
                 break;
             case Integrator::ReachedScheduledEvent:
                 check(t == s && ta == s, "scheduled-status-at-wrong-time", [&] { return "ReachedScheduledEvent at t=" + verif::fmtd(t) + " tAdv=" + verif::fmtd(ta) + " but scheduled=" + verif::fmtd(s); });
                 break;
             case Integrator::TimeHasAdvanced:
-                check(cfg.mask & OptReturnEvery, "time-has-advanced-without-option", [&] { return std::string("TimeHasAdvanced although returnEveryInternalStep is off"); });
+                check((cfg.mask & OptReturnEvery) != 0, "time-has-advanced-without-option", [&] { return std::string("TimeHasAdvanced although returnEveryInternalStep is off"); });
                 check(!I->isStateInterpolated() && ta == t, "time-has-advanced-not-at-advanced-state", [&] { return std::string("TimeHasAdvanced must return the advanced state"); });
+                check(t > prevT, "time-has-advanced-without-advancing", [&] { return "TimeHasAdvanced at t=" + verif::fmtd(t) + ", the time of the previous return"; });
                 break;
             case Integrator::ReachedStepLimit:
-                check(cfg.mask & OptLimit1, "step-limit-status-without-option", [&] { return std::string("ReachedStepLimit although no internal step limit is set"); });
+                check((cfg.mask & OptLimit1) != 0, "step-limit-status-without-option", [&] { return std::string("ReachedStepLimit although no internal step limit is set"); });
+                check(t > prevT, "step-limit-without-advancing", [&] { return "ReachedStepLimit at t=" + verif::fmtd(t) + ", the time of the previous return"; });
                 break;
             case Integrator::ReachedEventTrigger: {
                 check(cfg.wit != 0, "event-without-witness", [&] { return std::string("ReachedEventTrigger but the system has no witness"); });
                 if (cfg.wit) {
                     Vec2 w(NaN, NaN); bool wthrew = false;
                     try { w = I->getEventWindow(); } catch (const std::exception&) { wthrew = true; }
-                    char b[200]; snprintf(b, sizeof b, "      window (%.17g, %.17g]\n", w[0], w[1]); trace += b;
+                    if (tracing) { char b[200]; snprintf(b, sizeof b, "      window (%.17g, %.17g]\n", w[0], w[1]); trace += b; }
                     const double c = cfg.crossing();
                     check(!wthrew && w[0] < w[1], "event-window-empty", [&] { return std::string("getEventWindow unavailable or empty"); });
                     check(!eventSeen, "event-reported-twice", [&] { return std::string("the single crossing was reported twice"); });
                     check(w[0] < c && c <= w[1], "event-window-misses-crossing", [&] { return "window does not bracket the crossing at " + verif::fmtd(c); });
                     check(t == w[0] && ta == w[1], "event-return-not-at-window", [&] { return "state time " + verif::fmtd(t) + " / advanced " + verif::fmtd(ta) + " differ from the window ends"; });
-                    check(!(w[0] < r && r < w[1]), "report-time-inside-event-window", [&] { return "report time " + verif::fmtd(r) + " strictly inside the window"; });
-                    check(!(w[0] < s && s < w[1]), "scheduled-time-inside-event-window", [&] { return "scheduled time " + verif::fmtd(s) + " strictly inside the window"; });
+                    if (oldWindow) g_ok["(unspecified) event window predates the request: report/scheduled-inside-window not demanded"]++;
+                    else {
+                        check(!(w[0] < r && r < w[1]), "report-time-inside-event-window", [&] { return "report time " + verif::fmtd(r) + " strictly inside the window"; });
+                        check(!(w[0] < s && s < w[1]), "scheduled-time-inside-event-window", [&] { return "scheduled time " + verif::fmtd(s) + " strictly inside the window"; });
+                    }
                     check(!(w[0] < F && F < w[1]), "final-time-inside-event-window", [&] { return "final time " + verif::fmtd(F) + " strictly inside the window"; });
                 }
                 eventSeen = true;
@@ -279,13 +332,13 @@ struct Exec {
                 ended = true;
                 break;
             default:
-                fail("invalid-status", "stepTo returned status " + std::to_string((int)st));
+                check(false, "invalid-status", [&] { return "stepTo returned status " + std::to_string((int)st); });
         }
         if (st != Integrator::EndOfSimulation)
             check(!I->isSimulationOver(), "simulation-over-without-end-status", [&] { return std::string("isSimulationOver() true but EndOfSimulation was never returned"); });
         if (cfg.wit && !eventSeen)
             check(!(t > cfg.crossing()), "witness-crossing-not-reported", [&] { return "returned t=" + verif::fmtd(t) + " beyond the crossing at " + verif::fmtd(cfg.crossing()) + " without ReachedEventTrigger"; });
-        prevT = t;
+        prevT = t; prevStatus = st;
     }
     void apply(const Op& o, bool judge) {
         hist.push_back(o);
@@ -299,12 +352,21 @@ struct Exec {
         int cap = hasF ? 60 : 3;
         int n = 0;
         while (!ended && !dead && n < cap) { call(0, Infinity, Infinity, true, "~"); n++; }
-        if (hasF) {
+        if (hasF && !dead) {
             check(ended, "no-end-of-simulation", [&] { return "EndOfSimulation not reached within " + std::to_string(cap) + " calls of stepTo(inf,inf)"; });
             if (ended && !dead) call(0, Infinity, Infinity, true, "~");      // must be refused
         }
     }
 };
+
+// CPODES reports every failed step on stderr; in the forked workers that is noise (the failure itself is judged).
+static void quietWorker(verif::Run& run) {
+    static bool done = false;
+    if (done || run.replaying()) return;
+    done = true;
+    int fd = open("/dev/null", O_WRONLY);
+    if (fd >= 0) { dup2(fd, 2); close(fd); }
+}
 
 // ---------------------------------------------------------------- enumeration helpers
 static std::vector<Op> alphabet() {
@@ -312,51 +374,74 @@ static std::vector<Op> alphabet() {
     for (int k = 0; k < 2; ++k) for (int ri = 0; ri < NL; ++ri) for (int si = 0; si < NL; ++si) { Op o; o.kind = k; o.ri = ri; o.si = si; a.push_back(o); }
     return a;
 }
-static uint64_t caseHash(const Cfg& c, const std::vector<Op>& h) { return verif::hashStr(c.str() + "|" + histStr(h)); }
 
-// Replays `prefix` unjudged, applies `op` judged, records, runs the tail.  Returns the canonical key
-// of the state after `op` (before the tail), and the state's time through `tOut`; enabled=false if op was not enabled.
+// Replays `prefix` unjudged, applies `op` judged, records, runs the tail.  Returns the canonical key of the
+// state after `op` (before the tail); enabled=false if op was not enabled.  `distinctCase`: this (cfg, history)
+// is not enumerated by any other section (so the distinct-case count is exact by construction).
 struct StepResult { bool enabled = false; uint64_t key = 0; bool ended = false, dead = false; };
-static StepResult runHistory(verif::Run& run, const Cfg& cfg, const std::vector<Op>& prefix, const Op& op, bool withTail = true) {
+static sigjmp_buf g_hangJmp;
+static void onAlarm(int) { siglongjmp(g_hangJmp, 1); }
+static StepResult runHistory(verif::Run& run, const Cfg& cfg, const std::vector<Op>& prefix, const Op& op, bool distinctCase, bool withTail = true) {
     StepResult R;
-    Exec X(run, cfg);
-    for (auto& o : prefix) X.apply(o, false);
-    if (!X.enabled(op)) return R;
-    R.enabled = true;
-    X.apply(op, true);
-    R.key = canonKey(*X.I, cfg.cpodes());
-    R.ended = X.ended; R.dead = X.dead;
-    if (withTail) X.tail();
-    run.evaluation(caseHash(cfg, X.hist), true);
-    run.outcome(verif::hashMix(verif::hashStr(cfg.str()), X.outcomeHash));
-    if (run.verbose) printf("%s\n%s", cfg.str().c_str(), X.trace.c_str());
+    // watchdog: a request that does not return within 6 s abandons the (leaked) integrator and is reported
+    static bool installed = false;
+    if (!installed) { installed = true; struct sigaction sa; memset(&sa, 0, sizeof sa); sa.sa_handler = onAlarm; sa.sa_flags = SA_NODEFER; sigaction(SIGALRM, &sa, nullptr); }
+    for (int pass = 0; pass < 2; ++pass) {
+        Exec* X = new Exec(run, cfg, pass == 1 || run.verbose);
+        if (sigsetjmp(g_hangJmp, 1)) {
+            std::vector<Op> h = prefix; h.push_back(op);
+            run.expect(false, std::string(INTEG_NAMES[cfg.integ]) + "/request-never-returns", [&] { return "a stepTo/stepBy call (or the drive to the end) did not return within 6 s: " + cfg.str() + " [" + cfg.optStr() + "] history=" + histStr(h) + "\n" + X->trace; },
+                       [&] { return "cfg=" + cfg.str() + "\nhistory=" + histStr(h) + "\n" + X->trace; });
+            R.enabled = true; R.dead = true;      // X is leaked on purpose: its integrator is in an unknown state
+            return R;
+        }
+        alarm(6);
+        for (auto& o : prefix) X->apply(o, false);
+        if (!X->enabled(op)) { alarm(0); delete X; break; }
+        R.enabled = true;
+        X->apply(op, true);
+        R.key = canonKey(*X->I, cfg.cpodes());
+        R.ended = X->ended; R.dead = X->dead;
+        if (withTail) X->tail();
+        alarm(0);
+        if (pass == 0) {
+            run.evaluationDistinct(distinctCase);
+            run.outcome(verif::hashMix(verif::hashStr(INTEG_NAMES[cfg.integ]), X->outcomeHash));
+        }
+        if (run.verbose) printf("%s\n%s", cfg.str().c_str(), X->trace.c_str());
+        const bool again = X->sawFailure;
+        delete X;
+        if (!again) break;
+    }
     return R;
 }
 
 // plain DFS: all enabled continuations of `prefix` up to `depth` more ops
-static void dfs(verif::Run& run, const Cfg& cfg, std::vector<Op>& prefix, int depth, const std::vector<Op>& A, const char* counter) {
+static void dfs(verif::Run& run, const Cfg& cfg, std::vector<Op>& prefix, int depth, const std::vector<Op>& A, int64_t& nHist, bool distinctBase) {
     if (depth == 0 || run.expired()) return;
     for (auto& o : A) {
-        StepResult R = runHistory(run, cfg, prefix, o);
+        StepResult R = runHistory(run, cfg, prefix, o, distinctBase && prefix.size() + 1 >= 3);
         if (!R.enabled) continue;
-        run.count(counter);
-        if (depth > 1 && !R.ended && !R.dead) { prefix.push_back(o); dfs(run, cfg, prefix, depth - 1, A, counter); prefix.pop_back(); }
+        nHist++;
+        if (depth > 1 && !R.ended && !R.dead) { prefix.push_back(o); dfs(run, cfg, prefix, depth - 1, A, nHist, distinctBase); prefix.pop_back(); }
     }
 }
 
 int main(int argc, char** argv) {
     verif::Run run("C19", argc, argv);
-    run.setDeadline(150, 2400);
+    run.setDeadline(240, 2400);
     const bool thorough = run.thorough();
     const std::vector<Op> A = alphabet();
+    const std::vector<Op>& Afull = A;
+    std::vector<Op> AstepTo; for (auto& o : A) if (o.kind == 0) AstepTo.push_back(o);
     const int bfsDepth = thorough ? 5 : 4;
-    const int cpDepth = thorough ? 4 : 3;     // total length including the fixed first call
+    const int cpDepth = thorough ? 4 : 3;     // total length including the fixed first call (thorough: 4 for BDF/lattice 1, else 3)
     std::vector<int> lats;
     if (thorough) lats = {0, 1, 2}; else lats = {(int)(((run.seed % 3) + 3) % 3)};
     const int nInteg = thorough ? 10 : 9;
     run.rule = "a case = (lattice, integrator, 5-bit option mask, witness variant, request history); requests are stepTo/stepBy with (report,scheduled) "
                "from {now, 6 lattice times, inf}^2, enabled when not in the past and guaranteed to return; every case is replayed on a fresh Integrator, "
-               "judged after every return, then driven to EndOfSimulation with (inf,inf). plain: all histories of length<=2; bfs: AbstractIntegratorRep "
+               "judged after every return, then driven to EndOfSimulation with (inf,inf). plain: all histories of length<=2 (quick: stepTo only, no witness); bfs: AbstractIntegratorRep "
                "family, breadth-first over canonical hidden states to depth " + std::to_string(bfsDepth) + "; cpodes: all histories of length<=" + std::to_string(cpDepth) +
                " below the first call stepTo(now,now). distinct = distinct (configuration, history); all are non-trivial (each executes at least one request)";
     run.assumptions = {"one exactly integrable system (qdot=u, udot=0, q=t): time bookkeeping is isolated from accuracy",
@@ -372,10 +457,10 @@ int main(int argc, char** argv) {
         printf("replaying %s [%s] history=%s\n", cfg.str().c_str(), cfg.optStr().c_str(), histStr(h).c_str());
         uint64_t oh[2] = {0, 0};
         for (int rep = 0; rep < 2; ++rep) {      // second pass unjudged: the replay must be deterministic
-            Exec X(run, cfg);
+            Exec X(run, cfg, true);
             for (auto& o : h) { if (!X.enabled(o)) { printf("op %s not enabled\n", opStr(o).c_str()); break; } X.apply(o, rep == 0); }
             if (rep == 0) { X.tail(); printf("%s", X.trace.c_str()); }
-            else { Exec Y(run, cfg); for (auto& o : h) if (Y.enabled(o)) Y.apply(o, false); oh[1] = Y.outcomeHash; oh[0] = X.outcomeHash; }
+            else { Exec Y(run, cfg, true); for (auto& o : h) if (Y.enabled(o)) Y.apply(o, false); oh[1] = Y.outcomeHash; oh[0] = X.outcomeHash; }
         }
         if (oh[0] != oh[1]) run.harnessError("replay is not deterministic");
         int rc = run.finish();
@@ -383,43 +468,54 @@ int main(int argc, char** argv) {
         return rc;
     }
 
-    // ---- configurations
+    // ---- configurations (optional filter "--integ <name>": a subset run, reported as not exhaustive)
+    std::string only;
+    for (size_t k = 0; k + 1 < run.extra.size(); ++k) if (run.extra[k] == "--integ") only = run.extra[k + 1];
+    if (!only.empty()) { run.exhaustive = false; run.extraCoverage["restricted_to_integrator"] = "\"" + only + "\""; }
     std::vector<Cfg> all, abs, cps;
     for (int lat : lats) for (int integ = 0; integ < nInteg; ++integ) for (int mask = 0; mask < 32; ++mask) for (int wit = 0; wit < 3; ++wit) {
         if (!thorough && wit == 1) continue;
         Cfg c; c.lat = lat; c.integ = integ; c.mask = mask; c.wit = wit;
-        all.push_back(c); (c.cpodes() ? cps : abs).push_back(c);
+        if (!only.empty() && only != INTEG_NAMES[integ]) continue;
+        if (thorough || wit == 0) all.push_back(c);     // quick: the plain section runs without witness; bfs/cpodes have both
+        (c.cpodes() ? cps : abs).push_back(c);
     }
     run.extraCoverage["configurations"] = std::to_string(all.size());
     run.extraCoverage["alphabet_size"] = std::to_string(A.size());
 
     // ---- section plain: every history of length <= 2, no merging
     run.parallel("plain", (int64_t)all.size(), [&](int64_t i) {
+        quietWorker(run);
         const Cfg& cfg = all[i];
         std::set<uint64_t> firstKeys;
-        std::vector<Op> prefix;
+        std::vector<Op> prefix; int64_t nHist = 0;
+        // quick (and thorough on lattices 2,3): stepTo only -- stepBy is exercised by the bfs/cpodes sections
+        const std::vector<Op>& A = (thorough && cfg.lat == lats[0]) ? Afull : AstepTo;
         for (auto& o1 : A) {
-            StepResult R = runHistory(run, cfg, prefix, o1);
+            StepResult R = runHistory(run, cfg, prefix, o1, true);
             if (!R.enabled) continue;
-            run.count("plain_histories");
+            nHist++;
             firstKeys.insert(R.key);
             if (R.ended || R.dead) continue;
             prefix.push_back(o1);
-            for (auto& o2 : A) { StepResult R2 = runHistory(run, cfg, prefix, o2); if (R2.enabled) run.count("plain_histories"); }
+            for (auto& o2 : A) { StepResult R2 = runHistory(run, cfg, prefix, o2, true); if (R2.enabled) nHist++; }
             prefix.pop_back();
         }
         // the assumption the cpodes section and the depth accounting rest on
         run.expect(firstKeys.size() == 1, std::string("assumption/first-call-ignores-arguments/") + INTEG_NAMES[cfg.integ],
                    [&] { return "the first stepTo/stepBy left " + std::to_string(firstKeys.size()) + " different visible states depending on its arguments; " + cfg.str(); },
                    [&] { return run.replayHeader(); });
-        if (i % 97 == 0) run.sample("plain " + cfg.str() + " -> all histories of length<=2 judged");
+        run.count("plain_histories", nHist);
+        flushCounters(run);
+        if (i % 97 == 0) run.sample("plain " + cfg.str() + " -> all " + std::to_string(nHist) + " histories of length<=2 judged");
     });
 
     // ---- section bfs: AbstractIntegratorRep family, merging canonical states
     run.parallel("bfs", (int64_t)abs.size(), [&](int64_t i) {
+        quietWorker(run);
         const Cfg& cfg = abs[i];
         std::set<uint64_t> seen;
-        { Exec X(run, cfg); seen.insert(canonKey(*X.I, false)); run.state(verif::hashMix(verif::hashStr(cfg.str()), canonKey(*X.I, false))); }
+        { Exec X(run, cfg, false); seen.insert(canonKey(*X.I, false)); run.state(verif::hashMix(verif::hashStr(cfg.str()), canonKey(*X.I, false))); }
         std::vector<std::vector<Op>> frontier = {{}}, next;
         int depthDone = 0; int64_t nRuns = 0;
         for (int d = 1; d <= bfsDepth && !frontier.empty(); ++d) {
@@ -427,7 +523,7 @@ int main(int argc, char** argv) {
             for (auto& h : frontier) {
                 if (run.expired()) break;
                 for (auto& o : A) {
-                    StepResult R = runHistory(run, cfg, h, o);
+                    StepResult R = runHistory(run, cfg, h, o, h.size() + 1 >= 3);
                     if (!R.enabled) continue;
                     nRuns++;
                     if (seen.insert(R.key).second) {
@@ -442,6 +538,7 @@ int main(int argc, char** argv) {
         run.count("bfs_histories", nRuns);
         run.count("bfs_states", (int64_t)seen.size());
         run.count(frontier.empty() ? "bfs_fixpoint_reached" : "bfs_depth_bounded");
+        flushCounters(run);
         if (i % 61 == 0) run.sample("bfs " + cfg.str() + " -> depth " + std::to_string(depthDone) + ", " + std::to_string(seen.size()) + " canonical states, " + std::to_string(nRuns) + " histories, frontier left " + std::to_string(frontier.size()));
     });
 
@@ -451,42 +548,56 @@ int main(int argc, char** argv) {
         std::vector<Item> items;
         for (auto& c : cps) for (auto& o : A) items.push_back({c, o});
         run.parallel("cpodes", (int64_t)items.size(), [&](int64_t i) {
+        quietWorker(run);
             const Cfg& cfg = items[i].cfg;
             Op first; first.kind = 0; first.ri = 0; first.si = 0;
             std::vector<Op> prefix = {first};
-            StepResult R = runHistory(run, cfg, prefix, items[i].second);
+            StepResult R = runHistory(run, cfg, prefix, items[i].second, false);
             if (!R.enabled) return;
-            run.count("cpodes_histories");
-            if (R.ended || R.dead || cpDepth < 3) return;
-            prefix.push_back(items[i].second);
-            dfs(run, cfg, prefix, cpDepth - 2, A, "cpodes_histories");
+            int64_t nHist = 1;
+            // thorough: length 4 for BDF on the first lattice (wit 0,2); length 3 everywhere else
+            const int depth = (thorough && cfg.integ == CPODES0 && cfg.lat == lats[0] && cfg.wit != 1) ? 4 : 3;
+            if (!(R.ended || R.dead)) {
+                prefix.push_back(items[i].second);
+                dfs(run, cfg, prefix, depth - 2, A, nHist, true);
+            }
+            run.count("cpodes_histories", nHist);
+            flushCounters(run);
             if (i % 1201 == 0) run.sample("cpodes " + cfg.str() + " second=" + opStr(items[i].second) + " -> all continuations to length " + std::to_string(cpDepth));
         });
         if (thorough) {
             // all histories of length 3 with an unrestricted first call
             run.parallel("cpodes-full3", (int64_t)items.size(), [&](int64_t i) {
+        quietWorker(run);
                 const Cfg& cfg = items[i].cfg;
-                if (cfg.lat != lats[0]) return;
+                if (cfg.lat != lats[0] || cfg.integ != CPODES0 || cfg.wit != 0) return;     // BDF, first lattice, no witness
                 std::vector<Op> prefix;
-                StepResult R = runHistory(run, cfg, prefix, items[i].second, false);
+                const Op& o1 = items[i].second;
+                if (o1.kind != 0) return;                                   // first call by stepTo
+                if (o1.ri == 0 && o1.si == 0) return;                       // covered by section cpodes
+                StepResult R = runHistory(run, cfg, prefix, o1, false, false);
                 if (!R.enabled || R.ended || R.dead) return;
-                prefix.push_back(items[i].second);
-                dfs(run, cfg, prefix, 2, A, "cpodes_full3_histories");
+                prefix.push_back(o1);
+                int64_t nHist = 0;
+                dfs(run, cfg, prefix, 2, A, nHist, true);      // length-2 ones repeat section plain (not counted distinct), length-3 are new
+                run.count("cpodes_full3_histories", nHist);
+                flushCounters(run);
             });
         }
     }
 
     // ---- section stepby-doc: Integrator.h documents stepBy's second argument as "the time of the next scheduled event"
     run.parallel("stepby-doc", (int64_t)(2 * lats.size()), [&](int64_t i) {
+        quietWorker(run);
         Cfg cfg; cfg.lat = lats[i / 2]; cfg.integ = (i % 2) ? 8 : 3; cfg.mask = OptFinal; cfg.wit = 0;
         const Lattice& L = cfg.L();
-        Exec X(run, cfg);
+        Exec X(run, cfg, true);
         X.call(0, 0, 0, false, " ");                       // StartOfContinuousInterval
         X.call(0, L.v[0], Infinity, false, " ");          // now at v0
         const double now = X.I->getTime(), tSched = L.v[1], tRep = L.v[2];
         Status st = X.I->stepBy(tRep - now, tSched);       // documented: report at now+interval, scheduled event AT tSched
         const double t = X.I->getTime();
-        run.evaluation(verif::hashStr("stepby-doc" + cfg.str()), true);
+        run.evaluationDistinct(true);
         char b[300]; snprintf(b, sizeof b, "at t=%.17g: stepBy(interval=%.17g, scheduledEventTime=%.17g) -> %s at t=%.17g", now, tRep - now, tSched, Integrator::getSuccessfulStepStatusString(st).c_str(), t);
         if (run.verbose) printf("%s\n", b);
         run.expect(t <= tSched, "stepBy/scheduled-argument-treated-as-interval",
